@@ -2,7 +2,8 @@
 
 Five program templates (straight line with a plain-value yield, data dependent loop, try/except
 around every await, try/finally with an await and a `return` inside `finally`, nested call with
-exception translation) are written ONCE in a tiny macro notation and compiled three ways from the
+exception translation; plain-value and bare yields also come directly after caught failures and
+cancellations, inside an except block and inside `finally`) are written ONCE in a tiny macro notation and compiled three ways from the
 same text: as an inlineCallbacks generator (AWAIT[i] -> `yield slot(i)`), as a coroutine run with
 ensureDeferred (`await slot(i)`), and as a plain synchronous function (`ctx.s(i)` returns the slot's
 value or raises its exception).  The nested template additionally comes in the flavours generator
@@ -95,7 +96,8 @@ DEF sub(ctx, i):
     try:
         v = AWAIT[i]
     except _Err as e:
-        ctx.note(("sub-e", i, e.v))
+        y = PLAIN[500 + i]
+        ctx.note(("sub-e", i, e.v, y))
         raise ctx.exc(e.v + 1000)
     ctx.note(("sub-v", i, v))
     return v + 1
@@ -140,7 +142,11 @@ DEF prog(ctx):
             out.append(("e", e.v))
         except CancelledError:
             out.append(("c", i))
-        ctx.note(("step", i, len(out)))
+        # plain (non-Deferred) values right after a result / a caught failure / a caught cancellation:
+        # they must come back exactly as yielded (a bare `yield` gives None)
+        w = PLAIN[1000 + i]
+        n = PLAIN[None]
+        ctx.note(("step", i, len(out), w, n))
     return ("t2", out)
 ''', '''
 DEF prog(ctx):
@@ -152,7 +158,8 @@ DEF prog(ctx):
             ctx.note(("try", i))
             i += 1
     finally:
-        ctx.note(("finally", len(out)))
+        q = PLAIN[("fin", len(out))]
+        ctx.note(("finally", len(out), q))
         z = AWAIT[ctx.k - 1]
         out.append(z)
         return ("t3", out)
@@ -166,7 +173,8 @@ DEF prog(ctx):
             out.append(("r", r))
         except _Err as e:
             out.append(("e", e.v))
-        ctx.note(("outer", i))
+        w = PLAIN[2000 + i]
+        ctx.note(("outer", i, w))
         i += 1
     z = AWAIT[ctx.k - 1]
     return ("t4", out, z)
